@@ -533,7 +533,7 @@ func judgeC10(c c10Case) (v core.Verdict) {
 
 func TestC10(t *testing.T) {
 	core.Run(t, "C10",
-		"histories of 2-15 Execute calls (template, nil/string/map data, nil or non-nil VarMap, destination that works or fails after 1/7/30 bytes) on one goroutine over a pool of 3-8 generated templates: ordinary, failing (failure of any of 24 kinds below range / if-let / block / yield-with-content / yielded block body / include with context / inner try / block yielded by a Go helper through Runtime.YieldBlock, uncaught or caught), trying (successful try bodies, nested), returning from a range (slice, array, 1- and 4-entry maps), nested ranges over the same value, publishing (a function calling Runtime.LetGlobal), swallowing (isset of a failing exec), bumping (a helper changing a variable in place), a layout / theme library / block-less child trio, pages in directories of their own including the same relative name, pages overriding a block that a shared layout yields with positional arguments, and probing (top-level yield content, '.', isset of names other templates declare or publish, a range, a range-else over an empty map), each call on one of two Sets over the same sources (default escaper / escaper off; data with HTML-special bytes); also: writing (a function writing through the Runtime, ending inside a character), converting (slices of 1-4 elements handed to functions that take [3]T / *[2]T), a helper changing a string variable in place, Renderers that fail after a piece that ends inside a character; oracle = every call reproduces byte for byte (errors: nil-ness and position) what the same call renders right after the object pools were emptied by two forced GCs, while the history runs with GOMAXPROCS(1) and GC off so the pooled Runtime is reused (pointer observed through a probe function); structural hash of every Template before/after; reference interpreter as second opinion; non-trivial = a failing execution followed by a probing one on the same Runtime pointer",
+		"histories of 2-15 Execute calls (template, nil/string/map data, nil or non-nil VarMap, destination that works or fails after 1/7/30 bytes) on one goroutine over a pool of 3-8 generated templates: ordinary, failing (failure of any of 24 kinds below range / if-let / block / yield-with-content / yielded block body / include with context / inner try / block yielded by a Go helper through Runtime.YieldBlock, uncaught or caught), trying (successful try bodies, nested), returning from a range (slice, array, 1- and 4-entry maps), nested ranges over the same value, publishing (a function calling Runtime.LetGlobal), swallowing (isset of a failing exec), bumping (a helper changing a variable in place), a layout / theme library / block-less child trio, pages in directories of their own including the same relative name, pages overriding a block that a shared layout yields with positional arguments, and probing (top-level yield content, '.', isset of names other templates declare or publish, a range, a range-else over an empty map), each call on one of two Sets over the same sources (default escaper / escaper off; data with HTML-special bytes); also: writing (a function writing through the Runtime, ending inside a character), converting (slices of 1-4 elements handed to functions that take [3]T / *[2]T), a helper changing a string variable in place, Renderers that fail after a piece that ends inside a character; round 10: values whose String method fails while a SafeWriter prints them; oracle = every call reproduces byte for byte (errors: nil-ness and position) what the same call renders right after the object pools were emptied by two forced GCs, while the history runs with GOMAXPROCS(1) and GC off so the pooled Runtime is reused (pointer observed through a probe function); structural hash of every Template before/after; reference interpreter as second opinion; non-trivial = a failing execution followed by a probing one on the same Runtime pointer",
 		genC10, judgeC10)
 }
 
